@@ -106,17 +106,98 @@ def numOf? : Val → Option Rat
 
 def absQ (q : Rat) : Rat := if q < 0 then -q else q
 
+/-- The numbers Delta computes with: Python's ints, bools and FINITE floats are exact rationals; the floats
+    +inf, -inf and NaN are separate values with IEEE / Python rules: a difference involving NaN, and
+    inf - inf, is NaN; EVERY ordering comparison with NaN is false (so `a >= b` and `not (a < b)` are no
+    longer the same test). -/
+inductive XNum where
+  | fin (q : Rat)
+  | pinf
+  | ninf
+  | nan
+  deriving DecidableEq, Repr, Inhabited
+
+namespace XNum
+
+def neg : XNum → XNum
+  | .fin q => .fin (-q)
+  | .pinf => .ninf
+  | .ninf => .pinf
+  | .nan => .nan
+
+/-- `a - b` -/
+def sub : XNum → XNum → XNum
+  | .nan, _ => .nan
+  | _, .nan => .nan
+  | .fin a, .fin b => .fin (a - b)
+  | .fin _, .pinf => .ninf
+  | .fin _, .ninf => .pinf
+  | .pinf, .pinf => .nan
+  | .pinf, _ => .pinf
+  | .ninf, .ninf => .nan
+  | .ninf, _ => .ninf
+
+/-- `abs(a)` -/
+def abs : XNum → XNum
+  | .fin q => .fin (absQ q)
+  | .pinf => .pinf
+  | .ninf => .pinf
+  | .nan => .nan
+
+/-- `a <= b` -/
+def le : XNum → XNum → Bool
+  | .nan, _ => false
+  | _, .nan => false
+  | .ninf, _ => true
+  | _, .pinf => true
+  | .fin a, .fin b => decide (a ≤ b)
+  | _, _ => false
+
+/-- `a < b` -/
+def lt : XNum → XNum → Bool
+  | .nan, _ => false
+  | _, .nan => false
+  | .pinf, _ => false
+  | _, .ninf => false
+  | .fin a, .fin b => decide (a < b)
+  | _, _ => true
+
+end XNum
+
+/-- the carriers of the non-finite floats in the value domain (reserved strings no generator produces,
+    the convention of `Output.nanVal`) -/
+def nanVal : Val := .atom (.str "\x00NaN")
+def pinfVal : Val := .atom (.str "\x00+inf")
+def ninfVal : Val := .atom (.str "\x00-inf")
+
+/-- the number a Python value is, if it is one -/
+def xnumOf? : Val → Option XNum
+  | .atom (.num q _) => some (.fin q)
+  | .atom (.str s) =>
+    if s = "\x00NaN" then some .nan else if s = "\x00+inf" then some .pinf
+    else if s = "\x00-inf" then some .ninf else none
+  | _ => none
+
+def XNum.toVal : XNum → Val
+  | .fin q => .atom (.num q .float)
+  | .pinf => pinfVal
+  | .ninf => ninfVal
+  | .nan => nanVal
+
 /-- `Delta.__call__`: new `_last` and the result.
-    `abs(self._last - value)` needs two numbers (TypeError otherwise, `_last` unchanged). -/
-def deltaCall (δ : Rat) (last : Val) (d : Data) : Val × FRes :=
+    `abs(self._last - value) >= self._delta` needs two numbers (TypeError otherwise, `_last` unchanged);
+    the test is FALSE when the difference is NaN (a NaN value, inf - inf): such a value is rejected and
+    `_last` keeps the last value that passed. -/
+def deltaCall (δ : XNum) (last : Val) (d : Data) : Val × FRes :=
   match d.get? "value" with
   | none => (last, .raise .keyError)
   | some value =>
     if last.isUndef then (value, .other (.bool true))
     else
-      match numOf? last, numOf? value with
+      match xnumOf? last, xnumOf? value with
       | some l, some v =>
-        if δ ≤ absQ (l - v) then (value, .other (.bool true)) else (last, .other (.bool false))
+        if XNum.le δ (XNum.abs (XNum.sub l v)) then (value, .other (.bool true))
+        else (last, .other (.bool false))
       | _, _ => (last, .raise .typeError)
 
 /-! ### DataEdit -/
@@ -242,7 +323,7 @@ def ifNotInitializedRef : CtrlRef := ⟨"_ctrl_blk", "_ctrl_blk", .sblock⟩
 inductive Filter where
   | edge (fl : EdgeFlags)
   | notFromUndef
-  | delta (δ : Rat) (last : Val)          -- `last`: UNDEF until a value has passed
+  | delta (δ : XNum) (last : Val)         -- `last`: UNDEF until a value has passed
   | ifOutput (ctrl : String)
   | ifNotInitialized (ctrl : String)
   | dataEdit (ops : List EditOp)
@@ -260,7 +341,7 @@ def Filter.mkIfOutput (kind : BlockKind) (ctrl : String) : Except Err Filter :=
 
 def Filter.mkIfNotInitialized (kind : BlockKind) (ctrl : String) : Except Err Filter :=
   if ifNotInitializedRef.blockType.admits kind then .ok (.ifNotInitialized ctrl) else .error .typeError
-def Filter.mkDelta (δ : Rat) : Filter := .delta δ .undef
+def Filter.mkDelta (δ : XNum) : Filter := .delta δ .undef
 
 structure CallResult where
   filter : Filter       -- the filter object afterwards (Delta remembers)
